@@ -125,6 +125,12 @@ func genBlock(l letter, p int) cm.Block {
 			if p == 0 && i == 1 {
 				v = 0
 			}
+			// (integers are integers whatever their size: 65535, 2^31-1, 2^31, 2^32-1, 2^53+1 and beyond)
+			if i >= 2 && i <= 8 {
+				v = []int{65535, 2147483647, 2147483648, 3000000000 + p, 4294967295, 9007199254740993, 9223372036854775807}[i-2]
+			} else if i == 0 && p%2 == 1 {
+				v = []int{2147483648, 4294967296 + p, 9223372036854775807}[(p/2)%3]
+			}
 			e.Dst = cm.Int(v)
 		case cm.BfChar:
 			asName := l.dst == 1 || (l.dst == 2 && i%2 == 1)
